@@ -749,6 +749,25 @@ func (h *Handler) checkAuth(w http.ResponseWriter, r *http.Request, user meta2.U
 	return true
 }
 
+// requireAdmin refuses the request unless authentication is disabled or the user is an administrator.
+// It is used by the endpoints that change the catalogue outside the query language, where the
+// equivalent statements (CREATE/DROP DATABASE, CREATE/ALTER RETENTION POLICY) require admin privilege.
+func (h *Handler) requireAdmin(w http.ResponseWriter, user meta2.User, op string) bool {
+	if !h.Config.AuthEnabled {
+		return true
+	}
+	if user == nil {
+		h.httpError(w, "error authorizing "+op+": create admin user first or disable authentication", http.StatusForbidden)
+		return false
+	}
+	if !user.AuthorizeUnrestricted() {
+		h.httpError(w, "error authorizing "+op+": requires admin privilege", http.StatusForbidden)
+		h.Logger.Error("not authorized", zap.String("op", op), zap.String("userID", user.ID()))
+		return false
+	}
+	return true
+}
+
 func (h *Handler) serveBackupRun(w http.ResponseWriter, r *http.Request, user meta2.User) {
 	// Check authorization.
 	if ok := h.checkAuth(w, r, user); !ok {
